@@ -21,9 +21,10 @@ Model (shapes from the code, post-conditions from the statement)
              cells (= records), `closed` (write on a closed file raises ValueError, which log() swallows).
              io.StringIO is an accumulator of cells; getvalue() snapshots it.
   cell       (code, payload): 0 = time cell, 1 = formatted value (payload = the value), 2 = bare tab (field absent),
-             3 = newline.  `fmt % value` is an external: the text is opaque, only WHICH value it renders is kept, and
-             it raises TypeError exactly when Python does for a one-conversion format ('%s' / '\\t%s', the only
-             formats Log.prepare produces): when `value` is a tuple whose length is not 1 (predicate multi()).
+             3 = newline.  `fmt % value` is an external: the text is opaque, only WHICH value it renders is kept; it
+             MAY raise TypeError (the code catches it): for a one-conversion format ('%s' / '\\t%s', the only formats
+             Log.prepare produces) exactly when `value` is a tuple whose length is not 1 (predicate multi()), for any
+             other format at will.  The fallback `'\\t%s' % (value,)` never raises and renders str(value).
 
 History lemmas (REG.lemmas, pure z3) are at the end of the file.
 """
@@ -80,11 +81,12 @@ REG.assume_note("C22 odict contract (assumed, proved for odict in C39): items() 
 REG.assume_note("C22 Data record (assumed, as in C20): hasattr / getattr / setattr with a computed field name are "
                 "membership / lookup / store in the record's field map; names taken from the log's field lists are "
                 "accepted by Data.__setattr__")
-REG.assume_note("C22 text formatting (assumed external): `fmt % value` yields a text that renders exactly `value` "
-                "(the text itself is opaque); for the one-conversion formats '%s' / '\\t%s' (the only ones "
-                "Log.prepare produces) it raises TypeError exactly when `value` is a tuple whose length is not 1 "
-                "(predicate multi), for any other format it may raise TypeError at will; `fmt % (x,)` renders x; "
-                "ns2u() is the identity on Python 3")
+REG.assume_note("C22 text formatting (assumed external): `fmt % value` yields a text that renders `value` (the text "
+                "itself is opaque) or raises TypeError, which the code catches: for the one-conversion formats '%s' / "
+                "'\\t%s' (the only ones Log.prepare produces) exactly when `value` is a tuple whose length is not 1 "
+                "(predicate multi), for any other format at will; `fmt % (x,)` with such a format never raises and "
+                "renders str(x) - this is the fallback `'\\t%s' % (value,)` of Log.log / Log.logDeck; ns2u() is the "
+                "identity on Python 3")
 REG.assume_note("C22 file / io.StringIO (assumed external): StringIO.write appends its argument, getvalue() returns "
                 "the concatenation, file.write(text) appends the text to the file or raises ValueError when the file "
                 "is closed; the file is seen as the ghost list of cells written, close() has no other effect")
@@ -531,8 +533,12 @@ def cell_ok(E, cells, idx, log, t, j):
 
 
 def _n_text(value):
-    """what the real formatting writes for a value (a one-tuple renders its element)"""
-    return "%s" % value if isinstance(value, tuple) else "%s" % (value,)
+    """what Log.log / logDeck write for a value: `'\\t%s' % value` (a one-tuple renders its element) and, when that
+    raises TypeError (a tuple of another length), the fallback `'\\t%s' % (value,)` = str(value)"""
+    try:
+        return "%s" % value
+    except TypeError:
+        return "%s" % (value,)
 
 
 def _n_cells_of(log):
@@ -576,33 +582,12 @@ SAME_PREFIX = named("old_cells_kept", "forall(lambda k: implies(0 <= k and k < %
                     lambda log: log.file.cells[:len(_pre(log)["cells"])] == _pre(log)["cells"])
 
 
-@specfunc
-def some_multi(E, log):
-    """some prepared field that its loggee has holds a tuple whose length is not 1"""
-    t, j = z3.Int("t!sm"), z3.Int("j!sm")
-    n = nloggees(E, log).t
-    fo = _fmt_od(E, log, t)
-    fname = z3.Select(E.larrs(E.rd_field(fo, "_keys"))[0], j)
-    d = E.rd_field(loggee_at(E, log, Sym(t, "int")), "_d")
-    return Sym(z3.Exists([t, j], z3.And(0 <= t, t < n, 0 <= j, j < _nf_term(E, log, t), z3.Select(E.ddom(d), fname),
-                                        MULTI(z3.Select(E.dvals(d)[0], fname)))), "bool")
-
-
-def _n_some_multi(log):
-    for tag, loggee in log.loggees.items():
-        for field in log.formats[tag]:
-            if field in loggee and isinstance(loggee[field], tuple) and len(loggee[field]) != 1:
-                return True
-    return False
-
-
-some_multi.native = _n_some_multi
 FILE_SAME = ("self.file.nrec == old(self.file.nrec) and self.file.nwrites == old(self.file.nwrites) and "
              "len(self.file.cells) == old(len(self.file.cells))")
 
 
 def _one_loggee_one_field(E):
-    """INSTANCE (smallest shape that shows the disagreement): one loggee with one prepared field"""
+    """INSTANCE (smallest shape on which an escaping exception shows): one loggee with one prepared field"""
     log = E.frame.env["self"]
     lg = E.rd_field(log, "loggees")
     keys = E.new_list(NAME, 1, [E.fresh("inst_tags", z3.ArraySort(z3.IntSort(), NS))])
@@ -617,19 +602,17 @@ def _one_loggee_one_field(E):
 # [v0] the SUMMARY the rule methods see (quantifier free, so that a wrong rule decision is refuted with a model):
 # the stamp moves, one write call, one record (or nothing on a closed file)
 contract(FL, "Log.log", "C22", params=P, modifies=LOG_MOD, externals=EXT,
-         assumes=MODEL + PREP_FORMATS + SINGLE_FMT, may_raise_at_call=False,
+         assumes=MODEL + PREP_FORMATS + SINGLE_FMT,
          loops={0: dict(inv=["cf.nnl == 0"]), 1: dict(inv=["cf.nnl == 0"])},
-         raises={"TypeError": ["self.stamp == self.store.stamp", FILE_SAME]},
          ensures=[ONE_RECORD], local_ensures=["ct_len() == 1 and ct_is(0, 'file.write', self.file)"],
          note="summary used at the call sites in never / once / always / update / change; the record's content is "
-              "Log.log[v1], the TypeError outcome contradicts the statement and is reported through Log.log[v2]")
+              "Log.log[v1].  No exception is declared: none may escape, for ANY field value (statement)")
 # [v1] the record in full
 contract(FL, "Log.log", "C22", params=P, modifies=LOG_MOD, externals=EXT,
-         assumes=MODEL + PREP_FORMATS + SINGLE_FMT, may_raise_at_call=False,
-         raises={"TypeError": ["some_multi(self)", "self.stamp == self.store.stamp", FILE_SAME]},
-         note="the TypeError outcome is what the CODE does (exactly when a logged field holds a tuple whose length "
-              "is not 1: the fallback `'\\t%s' % value` raises again) - it contradicts the statement and is reported "
-              "through the instance contract Log.log[v2]; callers are verified against the normal outcome only",
+         assumes=MODEL + PREP_FORMATS + SINGLE_FMT,
+         note="no exception is declared: the TypeError of `fmt % value` for a tuple-valued field is caught and the "
+              "fallback `'\\t%s' % (value,)` cannot raise (repaired in /repo 0f66a3c; before, the fallback "
+              "`'\\t%s' % value` raised again)",
          loops={0: dict(index_name="ti", inv=["len(cf.cells) == 1 + ps(self, ti)"] + LOG_INV),
                 1: dict(inv=["len(cf.cells) == 1 + ps(self, ti) + _i", "0 <= ti and ti < nloggees(self)",
                              "tag == tag_at(self, ti) and loggee is loggee_at(self, ti)",
@@ -929,8 +912,10 @@ CHANGE_V1 = contract(
     note="instance: one tag, two prepared fields; the STATEMENT's clause without the restriction to `no recorded "
          "field has vanished` (once on the call trace, once on the file: the latter is also executable natively)")
 
-# INSTANCES of the statement on the smallest shapes that show a disagreement (concrete loop bounds, so a refuted clause
-# comes with a counter-model that is replayed natively).  Statement: a logger run writes its record - for ANY values
+# INSTANCES of the statement on the smallest shapes (concrete loop bounds, so a refuted clause comes with a counter-model
+# that is replayed natively).  Statement: a logger run writes its record - for ANY values.  Log.log[v2] is implied by
+# Log.log[v1] on the current tree; it is kept because an escaping exception (the defect repaired in 0f66a3c) is refuted
+# here with a model, where the general contract's quantified path condition only leaves the solver undecided.
 LOG_V2 = contract(FL, "Log.log", "C22", params=P, modifies=LOG_MOD, externals=EXT, setup=_one_loggee_one_field,
                   assumes=MODEL + PREP_FORMATS + SINGLE_FMT, ensures=[ONE_RECORD],
                   note="instance: one loggee, one prepared field; no exception is declared (the statement promises a "
@@ -1351,15 +1336,6 @@ def dk_line_ok(E, cells, base, log, k, upto=None):
     return Sym(z3.And(z3.Select(c0, at) == T_, body, z3.Select(c0, at + 1 + d.F) == NL_), "bool")
 
 
-@specfunc
-def dk_some_multi(E, log):
-    """some mapping entry of the deck has a listed field whose value is a tuple of length other than 1"""
-    d = _Dk(E, log)
-    k, j = z3.Int("k!dm"), z3.Int("j!dm")
-    return Sym(z3.Exists([k, j], z3.And(0 <= k, k < d.n0, d.ismap(k), 0 <= j, j < d.F, d.has(k, j),
-                                        MULTI(d.val(k, j)))), "bool")
-
-
 DK = dict(self=Ref("LogDeck"))
 DN0 = "dk_n0(self)"
 DONE = "(%s - len(dk_items(self)))" % DN0            # number of entries pulled so far
@@ -1372,7 +1348,7 @@ DECK_LINES = named("deck_lines_ok", "forall(lambda k: implies(0 <= k and k < %s 
                    lambda log: log.file.cells[len(_pre(log)["cells"]):] == _n_deck_cells(log))
 DK_LINES = ("forall(lambda k: implies(0 <= k and k < {hi} and dk_ismap(self, k), "
             "dk_line_ok(cf.cells, 0, self, k)))")
-contract(FL, "Log.logDeck", "C22", params=DK, externals=EXT2, may_raise_at_call=False,
+contract(FL, "Log.logDeck", "C22", params=DK, externals=EXT2,
          assumes=MODEL + SINGLE_FMT + ["deck_prepared(self)", "dk_items(self) is not self.file.cells",
                                         "dk_items(self) is not dk_fields(self)"],
          modifies=LOG_MOD + ["dk_items(self)[*]"],
@@ -1386,7 +1362,6 @@ contract(FL, "Log.logDeck", "C22", params=DK, externals=EXT2, may_raise_at_call=
                                          "forall(lambda j: implies(0 <= j and j < _i, dk_cell_ok(cf.cells, "
                                          "dk_off(self, %s - 1) + 1 + j, self, %s - 1, j)))" % (DONE, DONE),
                                          DK_LINES.format(hi=DONE + " - 1")])},
-         raises={"TypeError": ["dk_some_multi(self)", "self.stamp == self.store.stamp", FILE_SAME]},
          ensures=["self.stamp == self.store.stamp",
                   # the deck is left empty; every MAPPING entry is logged exactly once, first in first out; entries
                   # that are not mappings are consumed without a line
@@ -1400,8 +1375,8 @@ contract(FL, "Log.logDeck", "C22", params=DK, externals=EXT2, may_raise_at_call=
                   "implies(not dk_applies(self) or self.file.closed, %s)" % FILE_SAME],
          local_ensures=["implies(dk_applies(self), ct_len() == 1 and ct_is(0, 'file.write', self.file))",
                         "implies(not dk_applies(self), ct_len() == 0)"],
-         note="the TypeError outcome (a listed field of a mapping entry holds a tuple whose length is not 1) has the "
-              "same cause as in Log.log and is reported there; callers are verified against the normal outcome")
+         note="no exception is declared: a tuple-valued field of an entry goes through the repaired fallback "
+              "`'\\t%s' % (value,)` (0f66a3c)")
 
 contract(FL, "Log.deck", "C22", params=DK, externals=EXT2,
          assumes=MODEL + ["dk_items(self) is not self.file.cells"], modifies=LOG_MOD + ["dk_items(self)[*]"],
@@ -1899,7 +1874,7 @@ def _mk_update(rng, i, cex, nr):
         evs = [rng.choice(("W0", "W1", "R", "T")) for _ in range(rng.randint(0, 10))]
         log, _shares, _dirty = _n_history_check(nr, evs)       # a REACHABLE state of the history model
         return {"self": _snapshot(log)}
-    return {"self": _n_random_log(rng, nr, nr.mod.UPDATE)}
+    return {"self": _n_random_log(rng, nr, nr.mod.UPDATE, multi=True)}
 
 
 # ---- native twins that need the entry snapshot -------------------------------------------------------------------
@@ -1971,15 +1946,12 @@ dk_items.native = lambda log: list(log.loggees.values())[0].deck
 dk_n0.native = lambda log: len(_pre(log)["deck"])
 dk_off.native = lambda log, k: _n_deck_stats(log)[0]
 dk_cnt.native = lambda log, k: _n_deck_stats(log)[1]
-dk_some_multi.native = lambda log: any(isinstance(e, collections.abc.Mapping) and f in e and isinstance(e[f], tuple)
-                                       and len(e[f]) != 1 for e in _pre(log)["deck"]
-                                       for f in log.fields[list(log.loggees.keys())[0]])
 deck_prepared.native = lambda log: True
 
 
 def _mk_change(vanish):
     def make(rng, i, cex, nr):
-        log = _n_random_log(rng, nr, nr.mod.CHANGE, vanish=vanish)
+        log = _n_random_log(rng, nr, nr.mod.CHANGE, vanish=vanish, multi=True)
         return {"self": log}
     return make
 
@@ -2058,14 +2030,15 @@ def _mk_deck(multi):
 def _attach_native():
     L = "Log."
     table = {
-        (L + "never", 0): _mk_rule("NEVER"), (L + "once", 0): _mk_rule("ONCE"), (L + "always", 0): _mk_rule("ALWAYS"),
+        (L + "never", 0): _mk_rule("NEVER", multi=True), (L + "once", 0): _mk_rule("ONCE", multi=True),
+        (L + "always", 0): _mk_rule("ALWAYS", multi=True),
         (L + "update", 0): _mk_update,
         (L + "log", 0): _mk_rule("ALWAYS", multi=True, vanish=True), (L + "log", 1): _mk_rule("ALWAYS", multi=True, vanish=True),
         (L + "log", 2): _mk_rule("ALWAYS", multi=True, nlog=1),
         (L + "change", 0): _mk_change(True), (L + "change", 1): _mk_change_instance,
         (L + "logStreak", 0): _mk_streak(True), (L + "logStreak", 1): _mk_streak(False),
         (L + "streak", 0): _mk_streak(True),
-        (L + "logDeck", 0): _mk_deck(True), (L + "deck", 0): _mk_deck(False),
+        (L + "logDeck", 0): _mk_deck(True), (L + "deck", 0): _mk_deck(True),
     }
     for (rel, qual), cs in REG.contracts.items():
         if rel != FL:
